@@ -144,7 +144,9 @@ def sweep(prog, rep):
         if not (a1 in (Form(), Form(const=1)) and a2 in (Form(), Form(const=1))):
             rep.violation("SWEEP", fi.short, f"path {s.lines}", f"indices change by ({a1!r}, {a2!r})", fi.loc(lp))
             continue
-        ip_true = any(t in ("ip",) and p for t, p in s.opaque)
+        # the intersection variable, under whatever name: what `<period>.intersection(<period>)` is bound to in the loop
+        ip_names = {norm(a_.targets[0]) for a_ in ast.walk(lp) if isinstance(a_, ast.Assign) and len(a_.targets) == 1 and isinstance(a_.value, ast.Call) and isinstance(a_.value.func, ast.Attribute) and a_.value.func.attr == "intersection"} or {"ip"}
+        ip_true = any((t in ip_names or any(t == f"{n_} is not None" for n_ in ip_names)) and p for t, p in s.opaque)
         cons = f"path lines {s.lines[-3:]}"
         if not adv1 and not adv2:
             rep.violation("SWEEP", fi.short, cons, "a path through the loop body advances neither index: the sweep does not terminate", fi.loc(lp), path=[str(x) for x in s.lines])
@@ -237,7 +239,7 @@ def union_rule(prog, rep):
         it_ = it_.value  # events[1:] after the first element seeded the output
     swept = norm(it_) if it_ is not None else "events"
     sorted_defs = [s for s in body if isinstance(s, ast.Assign) and len(s.targets) == 1 and norm(s.targets[0]) == swept]
-    oks = len(sorted_defs) == 1 and norm(sorted_defs[0].value) in (f"sorted({p1} + {p2})", f"sorted({p2} + {p1})")
+    oks = len(sorted_defs) == 1 and norm(sorted_defs[0].value) in (f"sorted({p1} + {p2})", f"sorted({p2} + {p1})", f"sorted({p1} + {p2}, key=lambda e: e.timestamp)", f"sorted({p2} + {p1}, key=lambda e: e.timestamp)")
     rep.check(oks, "UNION", fi.short, "sorted concatenation", "events = sorted(events1 + events2)", "the sweep does not run over the sorted concatenation of both lists", fi.loc())
     if len(sweep_l) != 1:
         rep.undecided("UNION", fi.short, "sweep loop", f"{len(sweep_l)} candidate loops", fi.loc())
